@@ -9,4 +9,5 @@ CONSTANTS
 INIT Init
 NEXT Next
 VIEW View
-INVARIANTS P1 P2 P3 P4 P5 P6 P7 OnlyShrinks KeyUnique
+INVARIANTS P1 P4 KeyUnique
+PROPERTIES P2A P3A P5A P6A P7A OnlyShrinksA
